@@ -16,7 +16,7 @@ and produces a skeleton: nested lists
       ['forin', names, exps, block], ['function', path, method_or_None,
       body], ['localfunction', name_i, body], ['local', names, exps_or_None],
       ['goto', name_i], ['label', i], ['break'], ['return', exps_or_None],
-      ['print', exps]
+      ['print', qindex, exps]
     expressions (operators and operands in source order, no precedence):
       ['exp', item, ...] with items ['op', i] | ['un', i] | operand
       operands: ['nil'|'true'|'false'|'number'|'string'|'dots', i],
@@ -240,7 +240,7 @@ class P:
                 raise Reject('junk after ? arguments')
         finally:
             self.fence = old
-        return ['print', exps]
+        return ['print', q, exps]
 
     def if_stat(self):
         self.take(['kw:if'])
